@@ -287,7 +287,13 @@ func runOne(t Target, in *Input) (rej string, allocDelta uint64, dur time.Durati
 }
 
 // childMain runs one batch of a stateless/stateful decoder target.
-func childMain(target string, seed int64, batch, from, n int, scratch string, solo *Input) {
+// fixedArgs selects the deterministic series instead of the random mutants.
+type fixedArgs struct {
+	on            bool
+	shard, shards int
+}
+
+func childMain(target string, seed int64, batch, from, n int, scratch string, solo *Input, fx fixedArgs) {
 	ctor := targetCtors[target]
 	if ctor == nil {
 		emit(childRec{Kind: "inconc", Msg: "unknown target " + target})
@@ -332,17 +338,51 @@ func childMain(target string, seed int64, batch, from, n int, scratch string, so
 		}
 	}()
 
+	var series *fixedSeries
+	if fx.on {
+		ft, ok := t.(fixedTarget)
+		if !ok {
+			emit(childRec{Kind: "inconc", Msg: "target " + target + " has no deterministic series"})
+			os.Exit(3)
+		}
+		series = newFixedSeries(ft.FixedPlans(inputRng(seed, target, -2, 0)))
+		if from+n > series.Len() {
+			n = series.Len() - from
+		}
+		if fx.shards < 1 {
+			fx.shards = 1
+		}
+		stMu.Lock()
+		st.Extra["fixed_series_length"] = int64(series.Len())
+		stMu.Unlock()
+	}
+
 	prog := openProgress(progressPath(scratch, target, batch))
 	var window []*Input
 	windowStart := from
+	executed := 0
 	for i := 0; i < n; i++ {
 		idx := from + i
 		var in *Input
-		if solo != nil {
+		switch {
+		case solo != nil:
 			in = solo
-		} else {
+		case series != nil:
+			if idx%fx.shards != fx.shard {
+				stMu.Lock()
+				st.Next = idx + 1
+				stMu.Unlock()
+				continue
+			}
+			var kind uint8
+			in, kind = series.At(idx)
+			stMu.Lock()
+			st.Extra[fixCounter[kind]]++
+			stMu.Unlock()
+		default:
 			in = t.Gen(inputRng(seed, target, batch, idx))
 		}
+		executed++
 		if ml := t.MaxLen(); len(in.Data) > ml {
 			in.Data = in.Data[:ml]
 		}
@@ -413,7 +453,7 @@ func childMain(target string, seed int64, batch, from, n int, scratch string, so
 		}
 
 		window = append(window, in)
-		if (i+1)%canaryEvery == 0 || i == n-1 || pv != nil {
+		if executed%canaryEvery == 0 || i == n-1 || pv != nil {
 			stMu.Lock()
 			st.Canaries++
 			stMu.Unlock()
